@@ -3,6 +3,7 @@ pub mod c01;
 pub mod c02;
 pub mod c03;
 pub mod c04;
+pub mod c05;
 pub mod c17;
 pub mod c20;
 
@@ -12,6 +13,7 @@ pub fn run(id: &str, eng: &mut Engine) -> bool {
         "C02" => c02::run(eng),
         "C03" => c03::run(eng),
         "C04" => c04::run(eng),
+        "C05" => c05::run(eng),
         "C17" => c17::run(eng),
         "C20" => c20::run(eng),
         _ => return false,
